@@ -234,6 +234,69 @@ impl Mon<T, T> {
             }
         }
         let _ = is_clone_from;
+        // (3b) the destination of an interrupted clone_from: contents unspecified, but it must
+        // still be a map - no key twice, len() == number of iterated entries, every element a
+        // live object, capacity() >= len(), room for its own leftovers - and must not keep
+        // what it held before the call beside what it cloned
+        if let Some(d) = self.limbo.take() {
+            let mut seen: BTreeSet<u64> = BTreeSet::new();
+            let mut n = 0usize;
+            let scan = catch(|| {
+                let mut v = Vec::new();
+                for (k, val) in d.iter() {
+                    v.push((k.val(), k.id(), val.id()));
+                }
+                v
+            });
+            let items = match scan {
+                Ok(v) => v,
+                Err(p) => {
+                    std::mem::forget(d);
+                    viol!("C07", "iterating the destination of the interrupted clone_from panicked {ctx}: {p}");
+                }
+            };
+            let mut bad: Option<(String, &'static [&'static str])> = None;
+            for (k, kid, vid) in &items {
+                n += 1;
+                if !seen.insert(*k) {
+                    bad = Some((format!("the destination of the interrupted clone_from holds key {k} twice"), &["C11"]));
+                }
+                if ledger_state(*kid) != Some(Life::Live) || ledger_state(*vid) != Some(Life::Live) {
+                    bad = Some((format!("the destination of the interrupted clone_from holds a dropped object (key {k})"), &["C05"]));
+                }
+                if !before.contains_key(k) {
+                    bad = Some((format!("the destination of the interrupted clone_from still holds key {k}, which it held before the call and the source never had"), &["C11"]));
+                }
+            }
+            if d.len() != n {
+                bad = Some((format!("the destination of the interrupted clone_from reports len() = {} but iteration yields {n} entries", d.len()), &["C11"]));
+            }
+            if d.capacity() < d.len() {
+                bad = Some((format!("the destination of the interrupted clone_from has capacity() {} < len() {}", d.capacity(), d.len()), &["C04", "C11"]));
+            }
+            let ds = d.verif_state();
+            if let Some(o) = &ds.old {
+                let l = o.table.len;
+                if o.cursor_remaining != l {
+                    bad = Some((format!("the destination of the interrupted clone_from: cached iterator believes {} elements remain, old table holds {l}", o.cursor_remaining), &["C05"]));
+                }
+                if l > 0 && ds.main.capacity.saturating_sub(ds.main.len) < l + (l + ds.r - 1) / ds.r {
+                    bad = Some((format!("the destination of the interrupted clone_from has no room in its main table ({} free) for the {l} elements in its old table", ds.main.capacity.saturating_sub(ds.main.len)), &["C04", "C11"]));
+                }
+            }
+            match bad {
+                Some((msg, more)) => {
+                    std::mem::forget(d);
+                    return Err(Viol { extra: Vec::new(), prop: "C07", more, msg: format!("{msg} {ctx}") });
+                }
+                None => {
+                    drop(d);
+                    if let Some((_p, m)) = take_violations().into_iter().next() {
+                        viol!("C07", "dropping the destination of the interrupted clone_from: {m} {ctx}");
+                    }
+                }
+            }
+        }
         // (4) nothing dropped twice, nothing read after free
         if let Some((_p, m)) = take_violations().into_iter().next() {
             viol!("C07", "{m} {ctx}");
@@ -332,6 +395,16 @@ fn fault_ops(rng: &mut Rng, s: &Sess<T, T>, chains: &[Vec<u64>], raw_chains: &[V
         many.push(i);
     }
     ops.push(Op::n(Code::CloneFrom, 3).with_v(rng.below(24)).with_list(many));
+    // destinations that are themselves mid-resize when clone_from starts (15, 29..31, 58 keys
+    // inserted one by one into an unallocated map)
+    for cnt in [15u64, 29, 30, 58] {
+        let mut l = Vec::new();
+        for i in 0..cnt {
+            l.push(700_000 + i);
+            l.push(i);
+        }
+        ops.push(Op::n(Code::CloneFrom, 0).with_v(rng.below(24)).with_list(l));
+    }
     ops.push(Op::n(Code::Reserve, all.len() as u64 * 2 + 5));
     ops.push(Op::n(Code::Reserve, 1));
     ops.push(Op::n(Code::TryReserve, all.len() as u64 + 9));
